@@ -283,6 +283,24 @@ def run_dropout(ns, c):
         wantg = np.where(dropped, 0.0, g.astype(np.float64) / (1 - p) if p < 1 else 0.0)
         if gd.shape != wantg.shape or not np.allclose(gd, wantg, rtol=(1e-5 if dt == np.float32 else 1e-7), atol=1e-12):
             viol.append(V("dropout:gradient-mask", "input gradient is not g*mask/(1-p) with the mask used in the forward pass", p=p))
+    # the same layer applied to a second input of the same shape (the other branch of a siamese pair, the next micro-batch) before the first
+    # call is differentiated: each call back-propagates through the mask it used itself
+    if 0 < p < 1:
+        xa = T(x[:50].copy() if x.ndim == 1 else x[:4].copy(), requires_grad=True)
+        xb = T((x[:50] if x.ndim == 1 else x[:4]).copy() * 1.5, requires_grad=True)
+        ya = m(xa)
+        yb = m(xb)
+        ga = rng.standard_normal(ya.shape).astype(dt)
+        drop_a, drop_b = np.asarray(ya.data) == 0, np.asarray(yb.data) == 0
+        ya.backward(T(ga.copy()))
+        yb.backward(T(ga.copy()))
+        counters["second_call_before_backward"] = 1
+        for nm_, xt_, dr_ in (("first", xa, drop_a), ("second", xb, drop_b)):
+            want_ = np.where(dr_, 0.0, ga.astype(np.float64) / (1 - p))
+            if xt_.grad is None or not np.allclose(np.asarray(xt_.grad.data, dtype=np.float64), want_, rtol=(1e-5 if dt == np.float32 else 1e-7), atol=1e-12):
+                viol.append(V("dropout:gradient-mask:second-call-before-backward", f"two calls of one Dropout layer on equal-shaped inputs, differentiated afterwards: the {nm_} "
+                              "call's input gradient is not g*mask/(1-p) with the mask that call used", p=p))
+                break
     # per-position rate over repeated calls on a small tensor
     if 0 < p < 1:
         small = T(np.ones((4, 5), dtype=dt))
